@@ -64,7 +64,3 @@ val bb_samples :
 val bb_ops : bb_env -> (coq_Z * bool) list -> coq_Z list -> (coq_Z * mop) list
 
 val holds_C17_state : coq_Z -> ghost -> bool -> twa option -> bool
-
-val kf_C17_1 : coq_Z -> bool
-
-val kf_C17_2 : coq_Z -> ghost -> bool
